@@ -118,11 +118,35 @@ def shiftTyWith (R : RepOps) (t : Ty) (k : Nat) : Ty :=
   | .rd r m => .rd (R.shlConstTy r k) m
   | o => R.shlConstTy o k
 
+/-- `std::numeric_limits<T>::max()` of a number type built from wrappers over a built-in integer:
+the maximum of the innermost integer, as a `T` -/
+def maxOfTy (t : Ty) : Res Num :=
+  match innermost t with
+  | .int a => .ok (t, a.max)
+  | _ => .ill "numeric_limits::max: not modelled"
+
 /-- `power_value_fn<S, n, Radix>` for `Radix != 2`: `S{1} * Radix * … * Radix`, each product the
-wrapper's own operator with an `int` on the right -/
+wrapper's own operator with an `int` on the right.  Since the repair of `C04.unsigned_power_value_wraps`
+each step asserts `lesser_power <= numeric_limits<decltype(lesser_power * Radix)>::max() / Radix`
+(the division and the comparison are the wrapper's operators as well; the type of the product is
+obtained from a product that cannot overflow — `decltype` does not evaluate). -/
 def powerGoWith (R : RepOps) (radix : Nat) : Nat → Num → Res Num
   | 0, acc => .ok acc
-  | n+1, acc => binWith R .mul acc (.int i32, (radix : Int)) >>= powerGoWith R radix n
+  | n+1, acc =>
+    binWith R .mul (acc.1, 0) (.int i32, (radix : Int)) >>= fun t =>
+    maxOfTy t.1 >>= fun mx =>
+    match binWith R .div mx (.int i32, (radix : Int)) with
+    | .ok bound =>
+      match cmpWith R .le acc bound with
+      | .ok true => binWith R .mul acc (.int i32, (radix : Int)) >>= powerGoWith R radix n
+      | .ok false => .ill "power_value: attempted operation will result in overflow"
+      | _ => .ill "power_value: the assertion is not a constant expression"
+    | _ => .ill "power_value: the assertion is not a constant expression"
+
+/-- `power_value_fn` **as found**: no assertion -/
+def powerGoWithOrig (R : RepOps) (radix : Nat) : Nat → Num → Res Num
+  | 0, acc => .ok acc
+  | n+1, acc => binWith R .mul acc (.int i32, (radix : Int)) >>= powerGoWithOrig R radix n
 
 /-- `power_value<S, k, radix>()` (`_impl/power_value.h`) for a wrapper type `S`.  Radix 2:
 `decltype(s >> constant<digits_v<S> - 1>){1} << constant<k>` — the shifts are the wrapper's own
@@ -134,10 +158,20 @@ def powerValueWith (R : RepOps) (S : Ty) (k radix : Nat) : Res Num :=
   else powerGoWith R radix k (S, 1)
 
 /-- `_impl::default_scale<k, radix, S>` (`num_traits/scale.h`) for a wrapper type `S`:
-`s * power_value<S, k, radix>()` resp. `s / power_value<S, -k, radix>()` with the wrapper's operators -/
+`s * power_value<S, k, radix>()` resp. `s / power_value<S, -k, radix>()` with the wrapper's operators.
+Since the repair of `C09.wrapped_power_is_int_min` the divisor is a `constexpr` variable (anything but a
+value in its evaluation is ill-formed) under `static_assert(0 < divisor)`. -/
 def defaultScaleWith (R : RepOps) (k : Int) (radix : Nat) (x : Num) : Res Num :=
   if k ≥ 0 then powerValueWith R x.1 k.toNat radix >>= fun p => binWith R .mul x p
-  else powerValueWith R x.1 (-k).toNat radix >>= fun p => binWith R .div x p
+  else
+    match powerValueWith R x.1 (-k).toNat radix with
+    | .ok p =>
+      match cmpWith R .gt p (.int i32, 0) with
+      | .ok true => binWith R .div x p
+      | .ok false => .ill "scale: attempted operation will result in overflow"
+      | _ => .ill "scale: the assertion is not a constant expression"
+    | .ill m => .ill m
+    | _ => .ill "scale: the divisor is not a constant expression"
 
 /-- `d`, unless naming the type of `r` is already ill-formed -/
 def illOr {α β : Type} (r : Res α) (d : Res β) : Res β :=
